@@ -23,6 +23,7 @@ import core
 LEVEL = "proof"
 EXTRA_TARGETS = ["model/LocksTie.vo"]
 TERM = 0
+SHARD = 24
 
 HEADER = ("From Coq Require Import List Arith Bool ZArith.\nImport ListNotations.\n"
           "From TI Require Import lib.Sched model.Locks model.LocksTie.\nOpen Scope nat_scope.\n")
@@ -113,16 +114,16 @@ def evaluate(cases, tag="c14", want_racy=False):
             errors.append(f"case {i}: driver: {r['error']}")
     good = [i for i, r in enumerate(impl) if "log" in r]
     terms = [case_term(cases[i], impl[i]) for i in good]
-    bad, errs = core.coq_shards(tag, HEADER, terms, "lcase", "bad cases", shard=40)
+    # one evaluation: bits 0-1 = check (1 differs from the model, 2 contradicts the
+    # specification), bit 2 = the single-`with` variant would break the property here
+    out, errs = core.coq_shards(tag, HEADER, terms, "lcase",
+                                "bad_racy cases" if want_racy else "bad cases", shard=SHARD)
     errors += errs
     codes = [0] * len(cases)
-    for idx, code in bad:
-        codes[good[idx]] = code
     racy = 0
-    if want_racy:
-        rr, errs = core.coq_shards(tag + "x", HEADER, terms, "lcase", "racy cases", shard=40)
-        errors += errs
-        racy = sum(v for _, v in rr)
+    for idx, code in out:
+        codes[good[idx]] = code & 3
+        racy += bool(code & 4)
     return codes, errors, impl, racy
 
 
